@@ -2385,6 +2385,30 @@ func (w *world) borrowedShareScript() {
 	w.codec.replaySigs, w.codec.borrowShareOf = false, nil
 }
 
+// commitHashFloodScript (member 3 Byzantine): before anything else member 1 receives five COMMITs of the Byzantine
+// member for view 0, each for another made-up hash (all correctly signed, with its genuine share). Then the view runs
+// its course. What one member sent for other hashes does not stand in the way of the COMMITs of correct members for
+// the proposal: they are counted and member 1 commits (C11, C05).
+func (w *world) commitHashFloodScript() {
+	for _, n := range w.honest {
+		w.sync(n, nil)
+	}
+	for k := uint64(0); k < 5; k++ {
+		w.inject(w.byId[1], &aMsg{Kind: "C", Ref: aRef{3, worldInst, 1, 0, 2999900 + k}, Snd: aSig{3, true}, ShareOk: true}, "byz-C-made-up-hash")
+	}
+	w.take(1, "PP", 0)
+	w.take(2, "PP", 0)
+	for _, x := range [][2]uint64{{0, 1}, {0, 2}, {1, 2}, {2, 1}} {
+		w.take(x[0], "P", x[1])
+	}
+	for _, x := range [][2]uint64{{1, 0}, {1, 2}, {0, 1}, {0, 2}, {2, 0}, {2, 1}} {
+		w.take(x[0], "C", x[1])
+	}
+	if !w.byId[1].hasCommitted(1) {
+		w.rep.finding("C11", "honest-commit-not-counted", "node 1 received five COMMITs of a Byzantine member for made-up hashes and then the proposal, the PREPAREs and the COMMITs of both other correct members: it did not commit", w.traceInput())
+	}
+}
+
 func (w *world) kf1ForkScript() {
 	for _, n := range w.honest {
 		w.sync(n, nil)
